@@ -86,6 +86,10 @@ def stream_sample(ctx, ntables):
             if R.random() < 0.3 and n > 3: col[R.randrange(n)] = pd.NaT
             df = t["df"].copy(); j = R.randrange(len(df.columns)); df[df.columns[j]] = col
             t["df"] = df; t["kinds"][j] = "ts"
+        if R.random() < 0.15:          # 64-bit surrogate keys as entity ids (unsigned, upper half of the range), several rows per entity
+            ne = max(1, t["n"] // R.choice([1, 2, 5]))
+            t["pids"] = pd.DataFrame({"id": np.array([2 ** 63 + R.randrange(ne) * 7919 if R.random() < 0.7 else 2 ** 64 - 1 - R.randrange(ne) for _ in range(t["n"])], dtype=np.uint64)})
+            t["pid_mode"] = "uint64"
         strs = list(strategies(R, t))
         picks = R.sample(strs, min(len(strs), ctx.scale(2, 4)))
         if ncols >= 5 and not any(d == "main-index-0" for d, _ in picks):
@@ -129,6 +133,25 @@ def stream_sample(ctx, ntables):
                                 {"table": ES.typed_summary(t2), "strategy": desc, "columns": list(d.columns)}, "raises-empty-cluster" if empty_cluster else "raises"); break
             S.count((repr(d.values.tolist()), desc, repr(t["ap"])), True, {"table": ES.typed_summary(t2), "strategy": desc, "rows_out": len(out)}, tag="strategy-reused")
             check_output(ctx, t2, out, desc)
+    # one MlClustering object (target by name) used for a table and then for the same table without one of the other columns
+    from syndiffix.clustering.strategy import MlClustering
+    from syndiffix.common import AnonymizationParams
+    for _ in range(ctx.scale(1, 4)):
+        n = 160; a = [R.randint(0, 3) for _ in range(n)]
+        df = pd.DataFrame({"tgt": [x * 2 + R.randint(0, 1) for x in a], "fa": a, "fb": [(x + R.randint(0, 1)) % 4 for x in a], "fc": [R.randint(0, 5) for _ in range(n)],
+                           "fd": [f"s{(x * 3 + R.randint(0, 1)) % 5}" for x in a]})
+        strat = MlClustering(target_column="tgt")
+        drop = R.choice(["fa", "fb", "fd"])
+        for step, d in (("first table", df), (f"second table (same strategy object, column {drop!r} withheld)", df.drop(columns=[drop]))):
+            t2 = {"df": d, "kinds": ["str" if c == "fd" else "int" for c in d.columns], "n": n, "pid_mode": "unique", "ap": AnonymizationParams(salt=b"12345678"), "bp": None}
+            try:
+                out = Synthesizer(d, anonymization_params=t2["ap"], clustering=strat).sample()
+            except Exception as e:
+                ctx.oracle_fail(f"synthesis raised {type(e).__name__}: {str(e)[:200]} (ml-target-tgt, {step})", {"columns": list(d.columns), "strategy": "MlClustering(target_column='tgt') " + step}, "raises")
+                break
+            S.count((repr(d.values.tolist()), step), True, {"columns": list(d.columns), "strategy": "ml " + step, "rows_out": len(out)}, tag="ml-strategy-reused")
+            if list(out.columns) != list(d.columns):
+                ctx.oracle_fail(f"output columns {list(out.columns)} != input columns {list(d.columns)} (ml, {step})", {"columns": list(d.columns)}, "columns")
     # regression corpus: F1 (read-only normalisation), F10 (known finding)
     try:
         Synthesizer(pd.DataFrame({"a": [1, 2, 3, 4] * 10})).sample()
